@@ -12,7 +12,7 @@ RULE = ('one run = one connection whose output is known by construction (canned 
         'through a small receive buffer, with injected short writes / EAGAIN on the client socket, in '
         'threadless and thread-per-connection mode; non-trivial = at least one send() to the client was short '
         'or hit EAGAIN or the client paused reading while output was pending; distinct = distinct event-log digests')
-PROBES = ['err400', 'err404', 'err407', 'err502', 'pieces', 'static', 'upstream_close', 'threaded',
+PROBES = ['short_idle_timeout', 'err400', 'err404', 'err407', 'err502', 'pieces', 'static', 'upstream_close', 'threaded',
           'client_paused', 'teardown_deferred', 'upstream_closed_with_output_pending', 'eof', 'reset_after_data']
 COMPONENTS = {
     'real': ['proxy/core/base/tcp_server.py', 'proxy/http/handler.py', 'proxy/core/connection/connection.py',
@@ -134,7 +134,11 @@ def run_one(tape: Any, cfg: Dict[str, Any], forbid: FrozenSet[str] = frozenset()
         caps = [scen.pick_cap(tape, floor, 'cap%d' % i) for i in range(4)]
         opts.update(scen.proxy_opts(tape, floor))
         faults = scen.setup_faults(w, tape, {'send': ['short', 'eagain']}, budget=300)
-        flags = make_flags(threadless=not threaded, threaded=threaded, local_executor=1, timeout=3600,
+        # a short idle timeout must not matter while output is pending: the reaper may only take idle connections
+        idle_timeout = [3600, 3600, 2, 1][tape.draw(4, 'idle-timeout')]
+        if idle_timeout < 3600:
+            w.probe('short_idle_timeout')
+        flags = make_flags(threadless=not threaded, threaded=threaded, local_executor=1, timeout=idle_timeout,
                            enable_web_server=True, enable_static_server=(mode == 'static'),
                            static_server_dir=static_dir, plugins=plugins, **opts)
         h: Any = L3(w, flags) if threaded else L1(w, flags)
@@ -174,7 +178,17 @@ def run_one(tape: Any, cfg: Dict[str, Any], forbid: FrozenSet[str] = frozenset()
             state['checked'] = len(rx)
         cl.on_rx = on_rx
         cl.connect_fn = h.connector(cap_to_proxy=max(caps[2], 64), cap_to_client=caps[3], faultable=faults)
+        def hook(sel: Any) -> None:
+            # reach probes only (no oracle reads internals): teardown waiting for the flush, upstream gone with output pending
+            works = list(h.ex.works.values()) if not threaded else list(h.works)
+            for wk in works:
+                if getattr(wk, 'must_flush_before_shutdown', False):
+                    w.stats['probe:teardown_deferred'] = 1
+                if getattr(wk, 'reads_teared', False) and wk.work.has_buffer():
+                    w.stats['probe:upstream_closed_with_output_pending'] = 1
+        w.select_hook = hook
         w.settle(2.0, 900.0)
+        w.select_hook = None
         if not threaded:
             scen.executor_check(w, h)
 
